@@ -234,6 +234,10 @@ def run(chk):
     cfg_inventory(chk, prog)
     quick = chk.tier == "quick"
     rules = VALUE_RULES_QUICK if quick else VALUE_RULES_ALL
+    # the reference configuration itself: "equal results with checking in and out" is established through the common
+    # specification, so the checking configuration must satisfy it too (a dimensionally correct program that panics with
+    # checking compiled in, or a named constant with the wrong exponents, breaks the equality from this side)
+    run_rules_under(chk, "K1", (VALUE_RULES_QUICK if quick else []) + ["C01"])
     run_rules_under(chk, "K4", rules)
     chk.configs.append("K4")
     checks_off(chk, "K4")
